@@ -125,6 +125,20 @@ impl<Write: WriteHalf> WriteConnection<Write> {
         &self.socket
     }
 
+    /// Verification hook: `(pos, buffer.len())`.
+    #[cfg(zlink_verif)]
+    #[doc(hidden)]
+    pub fn verif_state(&self) -> (usize, usize) {
+        (self.pos, self.buffer.len())
+    }
+
+    /// Verification hook: mutable access to the underlying write half of the socket.
+    #[cfg(zlink_verif)]
+    #[doc(hidden)]
+    pub fn verif_write_half_mut(&mut self) -> &mut Write {
+        &mut self.socket
+    }
+
     async fn write<T>(&mut self, value: &T) -> crate::Result<()>
     where
         T: Serialize + ?Sized + Debug,
